@@ -31,6 +31,8 @@ def campaign(c):
     for i in range(2 if c.quick else 12):
         netscen.run_scenario(c, c.rng.fork('optgrid%d' % i), 'ip', ['opt-grid'], project)
     netscen.run_scenario(c, c.rng.fork('nonemit'), 'ip', ['non-emitting'], project)
+    for i in range(3 if c.quick else 30):
+        netscen.run_scenario(c, c.rng.fork('fanout%d' % i), 'ip', ['fan-out'], project)
     for i in range(2 if c.quick else 12):
         netscen.run_scenario(c, c.rng.fork('fragedge%d' % i), 'ip', ['frag-edge'], project)
     # crafted: IPv4 header sums whose first fold overflows 16 bits (identification tuned so that the low half is 0xffff)
